@@ -5,10 +5,10 @@
     csv.Reader.Read (encoding/csv, NOT modelled)                     the event stream [list ev]: a record,
                                                                      or an error other than io.EOF; the end
                                                                      of the list is io.EOF
-    CSVtoNumpyMulti read loop        cmd/connect/loader/utils.go:41  read_chunk  (ANY Read error ends the input)
+    CSVtoNumpyMulti read loop        cmd/connect/loader/utils.go:43  read_chunk  (io.EOF ends the input; any other
+                                                                     Read error is returned — fix 85c538e)
     CSVtoNumpyMulti                  utils.go:35                     chunk_step
-    convertCSVtoCSM                  utils.go:222                    conv_chunk  (time failure => (nil, nil) =>
-                                                                     nil dereference in the caller = Panic)
+    convertCSVtoCSM                  utils.go:228                    conv_chunk  (time failure => error — fix 4016039)
     readTimeColumns / parseTime      read.go:11 / time.go:10         conv_times / parse_timestamp
                                                                      (timeFormat "timestamp" only)
     columnSeriesMapFromCSVData       write.go:11                     conv_cols  (`if index != 0` skip)
@@ -162,25 +162,25 @@ Section WithFloat.
   Definition has_typestr (t : Z) : bool := existsb (fun p => Z.eqb (fst p) t) type_map.
   Definition wire_ok (c : cfg) : bool := forallb (fun p => has_typestr (fst p)) (used_cols c).
 
-  (** convertCSVtoCSM + the dereference that follows in CSVtoNumpyMulti + NewNumpyDataset *)
+  (** convertCSVtoCSM + NewNumpyDataset *)
   Definition conv_chunk (c : cfg) (rows : list row) : Res ds :=
     match mapM (time_of c) rows with
-    | None => Panic                       (* (nil, nil) returned; csm[tbk].Remove / NewNumpyDataset(nil) *)
+    | None => Rejected                    (* "error building time columns from csv data" *)
     | Some ts => match conv_cols c rows with
                  | None => Rejected
                  | Some cs => if wire_ok c then Ok (mkds ts cs) else Rejected
                  end
     end.
 
-  (** the read loop: up to [n] records; any error (io.EOF or not) ends the input *)
-  Fixpoint read_chunk (evs : list ev) (n : nat) {struct n} : list row * list ev * bool :=
+  (** the read loop: up to [n] records; io.EOF ends the input, any other Read error is returned *)
+  Fixpoint read_chunk (evs : list ev) (n : nat) {struct n} : Res (list row * list ev * bool) :=
     match n with
-    | O => ([], evs, false)
+    | O => Ok ([], evs, false)
     | S n' =>
         match evs with
-        | [] => ([], [], true)
-        | EErr :: rest => ([], rest, true)
-        | ERow r :: rest => let '(rows, rest', e) := read_chunk rest n' in (r :: rows, rest', e)
+        | [] => Ok ([], [], true)
+        | EErr :: _ => Rejected
+        | ERow r :: rest => do x <- read_chunk rest n'; let '(rows, rest', e) := x in Ok (r :: rows, rest', e)
         end
     end.
 
@@ -199,14 +199,18 @@ Section WithFloat.
     match fuel with
     | O => Loaded acc
     | S fuel' =>
-        let '(rows, rest, ended) := read_chunk evs (c_chunk c) in
-        match rows with
-        | [] => Loaded acc                       (* (nil, true, nil): nothing to write, end reached *)
-        | _ => match conv_chunk c rows with
-               | Panic => Crash
-               | Rejected => Error
-               | Ok d => if (ended : bool) then Loaded (ds_app acc d) else load_loop c fuel' rest (ds_app acc d)
-               end
+        match read_chunk evs (c_chunk c) with
+        | Panic => Crash
+        | Rejected => Error                      (* the csv read error is returned *)
+        | Ok (rows, rest, ended) =>
+            match rows with
+            | [] => Loaded acc                   (* (nil, true, nil): nothing to write, end reached *)
+            | _ => match conv_chunk c rows with
+                   | Panic => Crash
+                   | Rejected => Error
+                   | Ok d => if (ended : bool) then Loaded (ds_app acc d) else load_loop c fuel' rest (ds_app acc d)
+                   end
+            end
         end
     end.
 
